@@ -29,7 +29,8 @@ use qbase::{
 
 use super::*;
 use crate::send::ArcSender as AS;
-use crate::streams::io::{ArcInputGuard, ArcOutputGuard};
+use crate::streams::io::{ArcInputGuard, ArcOutputGuard, Output};
+use crate::streams::listener::ListenerGuard;
 use crate::send::SendBuf as SB;
 
 include!("../qbase/wake_common.rs");
@@ -214,11 +215,11 @@ fn streams_with(role: Role, l: (u64, u64, u64), n_bi: u64, n_uni: u64) -> DataSt
 /// `insert`s are replaced by no-ops in the open / accept harnesses. Nothing asserted there reads the
 /// tables: the stream objects are observed through the `Reader` / `Writer` the real function returns
 /// (so a native replay, where the real inserts run, observes the same values).
-fn stub_output_insert<TX>(_g: &mut ArcOutputGuard<'_, TX>, _sid: StreamId, outgoing: Outgoing<TX>, io_state: IOState) {
+fn stub_output_insert<'a: 'a, TX>(_g: &mut ArcOutputGuard<'a, TX>, _sid: StreamId, outgoing: Outgoing<TX>, io_state: IOState) {
     core::mem::forget(outgoing);
     core::mem::forget(io_state);
 }
-fn stub_input_insert<TX>(_g: &mut ArcInputGuard<'_, TX>, _sid: StreamId, incoming: Incoming<TX>, io_state: IOState) {
+fn stub_input_insert<'a: 'a, TX>(_g: &mut ArcInputGuard<'a, TX>, _sid: StreamId, incoming: Incoming<TX>, io_state: IOState) {
     core::mem::forget(incoming);
     core::mem::forget(io_state);
 }
@@ -300,15 +301,55 @@ fn open_step<S: Side, const DIR_BI: bool, const MODE: u8, const UNI_TRIGGER_AWAY
 }
 
 // ------------------------------------------------------------------------------------------------
-// accept
+// accept, first half: a frame for a new peer stream arrives -> `try_accept_sid` creates the halves.
+// Cuts (each measured to be necessary, see the report): the stream-id bookkeeping
+// (`ArcRemoteStreamIds::try_accept_sid`, C12's subject) is replaced by "the peer's first stream of
+// this kind is new" — with the real one the creation loop is unrolled to the bound —, the table
+// inserts are no-ops, and `ListenerGuard::push_*` records the limits of the halves it is handed
+// instead of queueing them (second half: accept_*_queued, on the real listener code).
 
-fn accept_bi<S: Side>() {
+static mut PUSHED: u32 = 0;
+static mut PUSHED_SID: u64 = 0;
+static mut PUSHED_LIMIT: Option<u64> = None;
+static mut PUSHED_WINDOW: Option<u64> = None;
+
+fn stub_remote_accept<MAX>(_r: &qbase::sid::ArcRemoteStreamIds<MAX>, sid: StreamId) -> Result<AcceptSid, ExceedLimitError>
+where
+    MAX: SendFrame<qbase::frame::MaxStreamsFrame> + Clone + Send + 'static,
+{
+    Ok(AcceptSid::New(qbase::sid::remote_sid::NeedCreate::c11s_single(sid)))
+}
+fn stub_push_bi<'a: 'a, TX>(_g: &mut ListenerGuard<'a, TX>, sid: StreamId, stream: (ArcRecver<TX>, ArcSender<TX>))
+where
+    TX: SendFrame<ResetStreamFrame> + Clone + Send + 'static,
+{
+    unsafe {
+        PUSHED += 1;
+        PUSHED_SID = VarInt::from(sid).into_u64();
+        PUSHED_LIMIT = stream.0.c11s_limit();
+        PUSHED_WINDOW = stream.1.c11s_window();
+    }
+    core::mem::forget(stream);
+}
+fn stub_push_uni<'a: 'a, TX>(_g: &mut ListenerGuard<'a, TX>, sid: StreamId, stream: ArcRecver<TX>)
+where
+    TX: SendFrame<ResetStreamFrame> + Clone + Send + 'static,
+{
+    unsafe {
+        PUSHED += 1;
+        PUSHED_SID = VarInt::from(sid).into_u64();
+        PUSHED_LIMIT = stream.c11s_limit();
+        PUSHED_WINDOW = None;
+    }
+    core::mem::forget(stream);
+}
+
+fn accept_create<S: Side, const DIR_BI: bool>() {
     let l = three();
-    let r = three();
     let ds = streams_with(S::ROLE, l, 0, 0);
-    // a frame for the peer's first bidirectional stream arrives (recv_data / recv_stream_control
+    // a frame for the peer's first stream of this kind arrives (recv_data / recv_stream_control
     // call try_accept_sid for every peer-initiated id)
-    let sid0 = StreamId::new(S::PEER, Dir::Bi, 0);
+    let sid0 = StreamId::new(S::PEER, if DIR_BI { Dir::Bi } else { Dir::Uni }, 0);
     match ds.try_accept_sid(sid0) {
         Ok(()) => {}
         Err(e) => {
@@ -316,52 +357,72 @@ fn accept_bi<S: Side>() {
             panic!("the first peer stream is within every limit");
         }
     }
-    // the application accepts it; the peer's parameters may or may not be known yet
+    let (n, sid, limit, window) = unsafe { (PUSHED, PUSHED_SID, PUSHED_LIMIT, PUSHED_WINDOW) };
+    assert!(n == 1 && sid == VarInt::from(sid0).into_u64(), "exactly this stream is created and queued for the application");
+    if DIR_BI {
+        assert!(limit == Some(l.1), "C11 accept bidi: receive limit == the LOCAL initial_max_stream_data_bidi_remote");
+        assert!(window == Some(0), "C11 accept bidi: nothing may be sent on it before the peer's window is applied (on accept)");
+    } else {
+        assert!(limit == Some(l.2), "C11 accept uni: receive limit == the LOCAL initial_max_stream_data_uni");
+        assert!(window.is_none(), "a receive-only stream has no sending half");
+    }
+    kani::cover!(l.0 != l.1 && l.1 != l.2 && l.0 != l.2, "limits pairwise different");
+    kani::cover!(l.1 == 0 || l.2 == 0, "zero limit");
+    core::mem::forget(ds);
+}
+
+// accept, second half: the application accepts the queued stream (real Listener code on a
+// stack-resident listener, see c11s_listener.rs)
+
+fn accept_bi_queued<S: Side>() {
+    let l = three();
+    let r = three();
+    let limit = any_limit();
+    let sid0 = StreamId::new(S::PEER, Dir::Bi, 0);
+    // the halves as try_accept_bi_sid creates them
+    let recver = ArcRecver::new(sid0, limit, Ext(Sink));
+    let sender = AS::new(sid0, 0, Ext(Sink), tx_handle(), None);
+    // the peer's parameters may or may not be known yet
     let ready: bool = kani::any();
-    let local = typed::<S::L>(l, None);
     let remote = if ready { Some(typed::<S::R>(r, None)) } else { None };
-    let arc = S::state(local, remote, None);
+    let arc = S::state(typed::<S::L>(l, None), remote, None);
     let w = waker(0);
     let mut cx = Context::from_waker(&w);
-    match ds.listener.poll_accept_bi_stream(&mut cx, &arc) {
+    match ArcListener::c11s_queue_and_accept_bi(sid0, (recver.clone(), sender.clone()), &mut cx, &arc) {
         Poll::Ready(Ok((sid, (reader, writer)))) => {
             assert!(ready && sid == sid0);
-            assert!(reader.c11s_recver().c11s_limit() == Some(l.1), "C11 accept bidi: receive limit == the LOCAL initial_max_stream_data_bidi_remote");
             assert!(writer.c11s_sender().c11s_window() == Some(r.0), "C11 accept bidi: send window == the PEER's initial_max_stream_data_bidi_local");
+            assert!(reader.c11s_recver().c11s_limit() == Some(limit), "accepting does not change the receive limit");
             core::mem::forget(reader);
             core::mem::forget(writer);
         }
         Poll::Pending => {
-            assert!(!ready, "the stream is queued: accept completes as soon as the peer's parameters are known");
+            assert!(!ready, "the stream stays queued until the peer's parameters are known");
+            assert!(sender.c11s_window() == Some(0) && recver.c11s_limit() == Some(limit));
         }
         other => {
             core::mem::forget(other);
             panic!("no connection error");
         }
     }
-    kani::cover!(ready && r.0 != r.1 && r.0 != r.2 && l.1 != l.0 && l.1 != l.2, "limits pairwise different");
+    kani::cover!(ready && r.0 != r.1 && r.0 != r.2 && r.0 != l.0 && r.0 != l.1, "limits pairwise different");
+    kani::cover!(ready && r.0 == 0, "zero window");
     kani::cover!(!ready, "accept before the peer's parameters are known");
     core::mem::forget(arc);
-    core::mem::forget(ds);
+    core::mem::forget(recver);
+    core::mem::forget(sender);
 }
 
-fn accept_uni<S: Side>() {
-    let l = three();
-    let ds = streams_with(S::ROLE, l, 0, 0);
+fn accept_uni_queued<S: Side>() {
+    let limit = any_limit();
     let sid0 = StreamId::new(S::PEER, Dir::Uni, 0);
-    match ds.try_accept_sid(sid0) {
-        Ok(()) => {}
-        Err(e) => {
-            core::mem::forget(e);
-            panic!("the first peer stream is within every limit");
-        }
-    }
+    let recver = ArcRecver::new(sid0, limit, Ext(Sink));
     let w = waker(0);
     let mut cx = Context::from_waker(&w);
-    match ds.listener.poll_accept_uni_stream(&mut cx) {
+    match ArcListener::c11s_queue_and_accept_uni(sid0, recver.clone(), &mut cx) {
         Poll::Ready(Ok((sid, reader))) => {
             assert!(sid == sid0);
-            assert!(reader.c11s_recver().c11s_limit() == Some(l.2), "C11 accept uni: receive limit == the LOCAL initial_max_stream_data_uni");
+            assert!(reader.c11s_recver().c11s_limit() == Some(limit), "accepting does not change the receive limit");
             core::mem::forget(reader);
         }
         other => {
@@ -369,9 +430,8 @@ fn accept_uni<S: Side>() {
             panic!("the queued stream is handed out");
         }
     }
-    kani::cover!(l.2 != l.0 && l.2 != l.1 && l.0 != l.1, "limits pairwise different");
-    kani::cover!(l.2 == 0, "zero limit");
-    core::mem::forget(ds);
+    kani::cover!(limit == 0, "zero limit");
+    core::mem::forget(recver);
 }
 
 macro_rules! c11s_streams_harness {
@@ -391,6 +451,13 @@ macro_rules! c11s_streams_harness {
         #[kani::stub(std::hash::RandomState::new, fixed_random_state)]
         #[kani::stub(crate::streams::io::ArcOutputGuard::insert, stub_output_insert)]
         #[kani::stub(crate::streams::io::ArcInputGuard::insert, stub_input_insert)]
+        #[kani::stub(crate::streams::io::ArcOutput::guard, crate::streams::io::verif_c11s_io::c11s_stub_output_guard)]
+        #[kani::stub(crate::streams::io::ArcInput::guard, crate::streams::io::verif_c11s_io::c11s_stub_input_guard)]
+        #[kani::stub(crate::streams::listener::ArcListener::guard, crate::streams::listener::verif_c11s_listener::c11s_stub_listener_guard)]
+        #[kani::stub(qbase::param::ArcParameters::lock_guard, qbase::param::ArcParameters::c11s_stub_lock_guard)]
+        #[kani::stub(qbase::sid::ArcRemoteStreamIds::try_accept_sid, stub_remote_accept)]
+        #[kani::stub(crate::streams::listener::ListenerGuard::push_bi_stream, stub_push_bi)]
+        #[kani::stub(crate::streams::listener::ListenerGuard::push_uni_stream, stub_push_uni)]
         fn $name() {
             $call;
         }
@@ -409,8 +476,155 @@ c11s_streams_harness!(c11_s_open_uni_server, open_step::<AsServer, false, 0, fal
 c11s_streams_harness!(c11_s_open_uni_client_eq, open_step::<AsClient, false, 0, true>());
 c11s_streams_harness!(c11_s_open_uni_server_eq, open_step::<AsServer, false, 0, true>());
 c11s_streams_harness!(c11_s_open_uni_0rtt, open_step::<AsClient, false, 1, false>());
-c11s_streams_harness!(c11_s_accept_bi_client, accept_bi::<AsClient>());
-c11s_streams_harness!(c11_s_accept_bi_server, accept_bi::<AsServer>());
-c11s_streams_harness!(c11_s_accept_uni_client, accept_uni::<AsClient>());
-c11s_streams_harness!(c11_s_accept_uni_server, accept_uni::<AsServer>());
+c11s_streams_harness!(c11_s_accept_bi_create_client, accept_create::<AsClient, true>());
+c11s_streams_harness!(c11_s_accept_bi_create_server, accept_create::<AsServer, true>());
+c11s_streams_harness!(c11_s_accept_uni_create_client, accept_create::<AsClient, false>());
+c11s_streams_harness!(c11_s_accept_uni_create_server, accept_create::<AsServer, false>());
+c11s_streams_harness!(c11_s_accept_bi_queued_client, accept_bi_queued::<AsClient>());
+c11s_streams_harness!(c11_s_accept_bi_queued_server, accept_bi_queued::<AsServer>());
+c11s_streams_harness!(c11_s_accept_uni_queued, accept_uni_queued::<AsClient>());
 
+// ------------------------------------------------------------------------------------------------
+// revise_params (handshake done): which of the peer's parameters goes to which streams
+
+static mut REV_CALLS: u32 = 0;
+static mut REV_ARGS: (bool, u64, u64, u64, u64) = (false, 0, 0, 0, 0);
+/// Recording stub for `ArcOutputGuard::revise_max_stream_data` (the table walk itself is the
+/// subject of c11_s_revise_peer_bidi*).
+fn stub_revise_record<'a: 'a, TX>(_g: &ArcOutputGuard<'a, TX>, zero_rtt_rejected: bool, opened_bidi: u64, opened_uni: u64, bidi_snd_wnd_size: u64, uni_snd_wnd_size: u64) {
+    unsafe {
+        REV_CALLS += 1;
+        REV_ARGS = (zero_rtt_rejected, opened_bidi, opened_uni, bidi_snd_wnd_size, uni_snd_wnd_size);
+    }
+}
+
+/// `revise_params(rejected, remote)`: the windows handed to the table walk are the peer's
+/// initial_max_stream_data_bidi_remote (for locally opened bidi streams) and
+/// initial_max_stream_data_uni (for locally opened uni streams), together with the number of
+/// streams this endpoint has opened in each direction; 1-RTT is entered.
+fn revise_args<S: Side>() {
+    let l = three();
+    let r = three();
+    let n = any_streams();
+    let ds = streams_with(S::ROLE, l, n, n);
+    let w = waker(0);
+    let mut cx = Context::from_waker(&w);
+    // this endpoint has opened 0 or 1 stream per direction so far
+    let open_bi: bool = kani::any();
+    let open_uni: bool = kani::any();
+    if open_bi {
+        assert!(ds.stream_ids.local.poll_alloc_sid(&mut cx, Dir::Bi).is_ready());
+    }
+    if open_uni {
+        assert!(ds.stream_ids.local.poll_alloc_sid(&mut cx, Dir::Uni).is_ready());
+    }
+    let rejected: bool = kani::any();
+    let rn: u64 = kani::any();
+    kani::assume(rn >= n && rn <= (1u64 << 60));
+    let remote = typed::<S::R>(r, Some((ParameterId::InitialMaxStreamsBidi, rn)));
+
+    ds.revise_params(rejected, &remote);
+
+    let (calls, args) = unsafe { (REV_CALLS, REV_ARGS) };
+    assert!(calls == 1, "the stream table is revised exactly once");
+    assert!(args.0 == rejected);
+    assert!(args.1 == if open_bi { 1 } else { 0 } && args.2 == if open_uni { 1 } else { 0 }, "only streams this endpoint has opened are revised");
+    assert!(args.3 == r.1, "C11 revise: locally opened bidi streams get the PEER's initial_max_stream_data_bidi_remote");
+    assert!(args.4 == r.2, "C11 revise: locally opened uni streams get the PEER's initial_max_stream_data_uni");
+    assert!(ds.tls_fin.load(Acquire), "1-RTT entered");
+    kani::cover!(r.0 != r.1 && r.1 != r.2 && r.0 != r.2, "limits pairwise different");
+    kani::cover!(rejected && open_bi && open_uni, "0-RTT rejected with streams open");
+    core::mem::forget(remote);
+    core::mem::forget(ds);
+}
+
+macro_rules! c11s_revise_args_harness {
+    ($name:ident, $call:expr) => {
+        #[kani::proof]
+        #[kani::unwind(6)]
+        #[kani::stub(core::fmt::write, stub_write)]
+        #[kani::stub(std::sync::Mutex::lock, stub_lock)]
+        #[kani::stub(qbase::net::tx::ArcSendWakers::wake_all_by, stub_wake_all_by)]
+        #[kani::stub(crate::streams::io::ArcOutputGuard::revise_max_stream_data, stub_revise_record)]
+        #[kani::stub(crate::streams::io::ArcOutput::guard, crate::streams::io::verif_c11s_io::c11s_stub_output_guard)]
+        fn $name() {
+            $call;
+        }
+    };
+}
+c11s_revise_args_harness!(c11_s_revise_args_client, revise_args::<AsClient>());
+c11s_revise_args_harness!(c11_s_revise_args_server, revise_args::<AsServer>());
+
+/// The table walk `ArcOutputGuard::revise_max_stream_data` on a REAL table (std BTreeMap inside a
+/// stack-resident Mutex, see c11s_io.rs) holding ONE stream in the state `create_sender` leaves it
+/// (Ready, window v): an endpoint of role `role` that has opened `opened_bidi` / `opened_uni`
+/// streams revises exactly the streams IT opened (initiator == role and index < opened count):
+/// bidi -> wb, uni -> wu (0-RTT rejected: exactly; accepted: never lowered). Every other stream in
+/// the table — in particular a PEER-opened bidirectional stream, whose window is the peer's
+/// initial_max_stream_data_bidi_local and is set when the application accepts it — keeps its window.
+/// TRIGGER_AWAY: no peer-opened bidi stream with index < opened_bidi (the trigger of the
+/// suspected defect: the walk does not look at the initiator of the stream).
+fn revise_walk<const TRIGGER_AWAY: bool>() {
+    let role = if kani::any() { Role::Client } else { Role::Server };
+    let sid_role = if kani::any() { Role::Client } else { Role::Server };
+    let dir = if kani::any() { Dir::Bi } else { Dir::Uni };
+    let idx: u64 = kani::any();
+    kani::assume(idx <= 2);
+    let sid = StreamId::new(sid_role, dir, idx);
+    let local = sid_role == role;
+    // (a peer-opened unidirectional stream has no sending half: it is never in this table)
+    kani::assume(local || dir == Dir::Bi);
+    let opened_bidi: u64 = kani::any();
+    let opened_uni: u64 = kani::any();
+    kani::assume(opened_bidi <= 3 && opened_uni <= 3);
+    // a locally opened stream in the table has been opened
+    kani::assume(!local || idx < if dir == Dir::Bi { opened_bidi } else { opened_uni });
+    if TRIGGER_AWAY {
+        kani::assume(local || idx >= opened_bidi);
+    }
+    let v = any_limit();
+    let wb = any_limit();
+    let wu = any_limit();
+    let rejected: bool = kani::any();
+    if !rejected {
+        // RFC 9000 7.4.1 / is_0rtt_accepted: an accepted 0-RTT never lowers a remembered limit
+        kani::assume(!local || v <= if dir == Dir::Bi { wb } else { wu });
+    }
+    let sender = AS::<Ext<Sink>>::new(sid, v, Ext(Sink), tx_handle(), None);
+    let mut table = Output::<Ext<Sink>>::c11s_new();
+    table.outgoings.insert(sid, (Outgoing::new(sender.clone()), IOState::bidirection()));
+    let mutex = std::sync::Mutex::new(Ok(table));
+    let guard = ArcOutputGuard::c11s_from(mutex.lock().unwrap());
+
+    guard.revise_max_stream_data(rejected, opened_bidi, opened_uni, wb, wu);
+
+    let after = sender.c11s_window();
+    if local {
+        assert!(after == Some(if dir == Dir::Bi { wb } else { wu }), "C11 revise: a locally opened stream gets the peer's limit for its kind (bidi -> bidi_remote value, uni -> uni value)");
+    } else {
+        assert!(after == Some(v), "C11 revise: a PEER-opened bidirectional stream keeps its window (its limit is the peer's initial_max_stream_data_bidi_local, applied on accept)");
+    }
+    kani::cover!(local && dir == Dir::Bi && rejected && wb < v, "own bidi stream, 0-RTT rejected, smaller window");
+    kani::cover!(local && dir == Dir::Uni && !rejected && wu > v, "own uni stream, window raised");
+    kani::cover!(!local && opened_bidi > 0, "peer-opened bidi stream while own bidi streams exist");
+    core::mem::forget(guard);
+    core::mem::forget(mutex);
+    core::mem::forget(sender);
+}
+
+macro_rules! c11s_revise_walk_harness {
+    ($name:ident, $call:expr) => {
+        #[kani::proof]
+        #[kani::unwind(13)]
+        #[kani::stub(core::fmt::write, stub_write)]
+        #[kani::stub(std::sync::Mutex::lock, stub_lock)]
+        #[kani::stub(qbase::net::tx::ArcSendWakers::wake_all_by, stub_wake_all_by)]
+        fn $name() {
+            $call;
+        }
+    };
+}
+// PENDING (suspected defect): the walk gives the BidiRemote window to peer-opened bidi streams as well
+c11s_revise_walk_harness!(c11_s_revise_walk, revise_walk::<false>());
+// passing twin: no peer-opened bidi stream below the count of locally opened ones
+c11s_revise_walk_harness!(c11_s_revise_walk_own_streams, revise_walk::<true>());
